@@ -270,33 +270,41 @@ def main():
             notes['translator_errors'] = gen_info['errors']
 
     # ---- 2. build: property theorems + driver
-    prop_module = 'SecpZkp.Props.%s' % pid
-    prop_file = os.path.join(LEAN, 'SecpZkp', 'Props', pid + '.lean')
-    targets = ['secpmodel'] + ([prop_module] if os.path.exists(prop_file) else [])
+    import glob as _glob
+    prop_files = sorted(_glob.glob(os.path.join(LEAN, 'SecpZkp', 'Props', pid + '.lean')) + _glob.glob(os.path.join(LEAN, 'SecpZkp', 'Props', pid + '_*.lean')))
+    prop_modules = ['SecpZkp.Props.' + os.path.basename(f)[:-5] for f in prop_files]
+    targets = ['secpmodel'] + prop_modules
     ok, bout, bsec = lake_build(targets)
     log('lake build %s: %s in %.1fs' % (targets, 'ok' if ok else 'FAILED', bsec))
     proof_broken = None
     if not ok:
-        proof_broken = {'kind': 'lake-build', 'output': bout[-6000:]}
+        # was it the model/driver or a proof? try the driver alone so that the correspondence can still run
+        errs = [l for l in bout.split('\n') if l.startswith('error') or 'error:' in l]
+        proof_broken = {'kind': 'lake-build', 'errors': errs[:40], 'output': bout[-6000:]}
+        lake_build(['secpmodel'])
     # ---- 3. audit
     thms, axmap = [], {}
-    if ok and os.path.exists(prop_file):
-        thms = theorems_of(prop_file)
-        axmap, axout = print_axioms(prop_module, thms)
+    if ok and prop_files:
+        axout_all = ''
+        for pf, pm in zip(prop_files, prop_modules):
+            t = theorems_of(pf)
+            am, axout = print_axioms(pm, t)
+            thms += t; axmap.update(am); axout_all += axout
         bad = {t: [x for x in ax if x not in ALLOWED_AXIOMS] for t, ax in axmap.items()}
         bad = {t: b for t, b in bad.items() if b}
         missing = [t for t in thms if t not in axmap]
         if bad or missing:
-            proof_broken = {'kind': 'axiom-audit', 'bad_axioms': bad, 'unresolved': missing, 'output': axout[-3000:]}
+            proof_broken = {'kind': 'axiom-audit', 'bad_axioms': bad, 'unresolved': missing, 'output': axout_all[-3000:]}
         hits = audit_sources()
         hits = [h for h in hits if not h.startswith('SecpZkp/Driver/')]
         if hits:
             proof_broken = {'kind': 'forbidden-construct', 'hits': hits}
         if tier == 'thorough' and not proof_broken:
-            r = run(['lake', 'env', 'leanchecker', prop_module], cwd=LEAN)
-            notes['leanchecker'] = 'ok' if r.returncode == 0 else r.stdout[-2000:]
-            if r.returncode != 0:
-                proof_broken = {'kind': 'leanchecker', 'output': r.stdout[-3000:]}
+            for pm in prop_modules:
+                r = run(['lake', 'env', 'leanchecker', pm], cwd=LEAN)
+                notes.setdefault('leanchecker', {})[pm] = 'ok' if r.returncode == 0 else r.stdout[-2000:]
+                if r.returncode != 0:
+                    proof_broken = {'kind': 'leanchecker', 'module': pm, 'output': r.stdout[-3000:]}
     if gen_info.get('errors'):
         proof_broken = proof_broken or {'kind': 'translator', 'errors': gen_info['errors']}
 
@@ -383,7 +391,7 @@ def main():
         'coverage': {
             'obligations': max(1, len(thms) + gen_info.get('obligations', 0)),
             'discharged': (len(thms) + gen_info.get('obligations', 0)) if not proof_broken else 0,
-            'checker_cmd': 'cd lean && lake build %s && lake env lean <#print axioms for each theorem>' % ' '.join(targets),
+            'checker_cmd': 'cd lean && lake build %s && lake env lean <#print axioms for each theorem>%s' % (' '.join(targets), ' && lake env leanchecker <module>' if tier == 'thorough' else ''),
             'trusted_base': ['Lean 4 kernel', 'Mathlib v4.33 (compiled)'] + ['axiom ' + x for x in tb] +
                             ['tools/c2lean.py translation (clang-14 AST)' if cfg.get('translate') else 'no translated targets for this property yet',
                              'correspondence harness + generators (differential testing of model vs implementation)'],
